@@ -32,6 +32,7 @@ def run(ctx: Context) -> None:
     cxx.check_widths(ctx, "C04b", TOTAL)
     ctx.rule("C04d", "the native kernels branch on computed floating values only through exact tests: no comparison with a non-zero floating constant (absolute tolerance)")
     cxx.check_thresholds(ctx, "C04d")
+    clause_d_python(ctx)
     ctx.rule("C04c", "a helper that rescales its matrix argument in place and returns (matrix, factor) returns, on every path, the factor it applied on that path (1 when it applied none)")
     clause_c(ctx)
     ctx.assume("LP64 data model (int 32 bits, long/int64_t 64 bits)")
@@ -102,3 +103,51 @@ def clause_c(ctx: Context) -> None:
                               f"{fn.name} {why}: callers undo the scaling with the returned factor (power traces are divided by it), so the "
                               f"hafnian is off by a power of the factor for the inputs that take this path", norm(ret)[:80])
     ctx.require_floor("in-place rescaling helpers returning (matrix, factor)", n, 1)
+
+
+def clause_d_python(ctx: Context) -> None:
+    """The numba hafnian kernels: a relational comparison of a computed floating value with a non-zero floating constant is an
+    absolute tolerance - every input below it takes the degenerate path whatever its scale (a matrix with entries of 1e-4 is a valid
+    input).  One idiom is accepted because the two arms are equivalent by construction: the guard of an in-place rescaling helper
+    whose guarded arm returns the argument unchanged together with the factor 1 (decided under C04c)."""
+    from ..index import get_index
+    idx = get_index(ctx.repo)
+    n_fn = n_cmp = 0
+    for mname, m in sorted(idx.modules.items()):
+        if not (mname.startswith("piquasso._math.hafnian") or mname == "piquasso._math.jax.hafnian"):
+            continue
+        consts = {k: v.value for k, v in m.assigns.items() if isinstance(v, ast.Constant) and isinstance(v.value, float)}
+        for fn in m.functions.values():
+            n_fn += 1
+            for node in ast.walk(fn.node):
+                if not isinstance(node, ast.If):
+                    continue
+                for c in ast.walk(node.test):
+                    if not (isinstance(c, ast.Compare) and len(c.ops) == 1 and isinstance(c.ops[0], (ast.Lt, ast.Gt, ast.LtE, ast.GtE))):
+                        continue
+                    sides = [c.left, c.comparators[0]]
+                    thr = None
+                    for s_ in sides:
+                        if isinstance(s_, ast.Constant) and isinstance(s_.value, float) and s_.value != 0.0:
+                            thr = s_.value
+                        elif isinstance(s_, ast.Name) and s_.id in consts and consts[s_.id] != 0.0:
+                            thr = consts[s_.id]
+                    if thr is None:
+                        continue
+                    n_cmp += 1
+                    # accepted: `if scale < eps: return <parameter>, 1.0`
+                    body = node.body
+                    identity = len(body) == 1 and isinstance(body[0], ast.Return) and isinstance(body[0].value, ast.Tuple) \
+                        and len(body[0].value.elts) == 2 and isinstance(body[0].value.elts[0], ast.Name) \
+                        and body[0].value.elts[0].id in fn.params() and isinstance(body[0].value.elts[1], ast.Constant) \
+                        and body[0].value.elts[1].value in (1, 1.0)
+                    key = f"{fn.qualname}|{norm(c)}"
+                    if identity:
+                        ctx.instance("C04d", key, "accepted: guard of an identity rescaling arm", f"{ctx.relpath(fn.file)}:{c.lineno}")
+                        continue
+                    ctx.violation("C04d", key, fn.file, c.lineno,
+                                  f"`{norm(c)}` compares a computed floating value with the absolute constant {thr}: inputs of small magnitude "
+                                  f"take the degenerate path although they are not degenerate (the kernel's value is wrong by O(1) for them)",
+                                  norm(node).split("\n")[0][:100])
+    ctx.require_floor("C04d python kernel functions scanned for absolute thresholds", n_fn, 20)
+    ctx.count("C04d relational comparisons with a floating constant in the python kernels", n_cmp)
